@@ -40,9 +40,21 @@ def run(props, timeout=900, only=None):
             with open(os.path.join(w, host), 'a') as fh:
                 fh.write('\n#[cfg(test)]\n#[path = "%s"]\nmod %s;\n' % (dst, mod))
         env = dict(os.environ, CARGO_TARGET_DIR=os.path.join(ROOT, '.cache', 'demo-target'), CARGO_NET_OFFLINE='true')
-        p = subprocess.run(['cargo', 'test', '--offline', '--lib', 'verif_w_', '--', '--test-threads', '8'], cwd=w, env=env,
-                           capture_output=True, text=True, timeout=timeout)
-        out = p.stdout + p.stderr
+        # own process group: a scenario that hangs must not leave its test binary behind, and nobody else's processes are touched
+        import signal
+        pr = subprocess.Popen(['cargo', 'test', '--offline', '--lib', 'verif_w_', '--', '--test-threads', '8'], cwd=w, env=env,
+                              stdout=subprocess.PIPE, stderr=subprocess.STDOUT, text=True, start_new_session=True)
+        try:
+            out, _ = pr.communicate(timeout=timeout)
+        except subprocess.TimeoutExpired:
+            os.killpg(pr.pid, signal.SIGKILL)
+            pr.communicate()
+            raise
+        finally:
+            try:
+                os.killpg(pr.pid, signal.SIGKILL)
+            except ProcessLookupError:
+                pass
         tests = re.findall(r'^test (\S+) \.\.\. (ok|FAILED)', out, re.M)
         if not tests:
             res['inconclusive'] = 'scenarios did not build or run: ' + ' | '.join([l for l in out.split('\n') if l.startswith('error')][:3])
